@@ -835,3 +835,38 @@ Proof.
       cbn [norm_all] in E. destruct (norm_index (zlen (items s)) p); [|now inversion E].
       destruct (norm_all (zlen (items s)) ps); [discriminate|]. inversion E; subst. now apply IH.
 Qed.
+
+(* raw.reverse() (fixes/repeated-reverse.patch): the raw list reversed *)
+Lemma raw_pop_last s a y :
+  items s = a ++ [y] -> exists s', raw_pop s (-1) = (s', Ok [y]) /\ items s' = a.
+Proof.
+  intros Es. unfold raw_pop, range_from_index, list_pop, list_get_int.
+  pose proof (zlen_nonneg a).
+  assert (Hn : norm_index (zlen (items s)) (-1) = Ok (zlen a)).
+  { unfold norm_index. rewrite Es, zlen_app. change (zlen [y]) with 1.
+    replace ((0 <=? -1) && (-1 <? zlen a + 1)) with false by lia.
+    replace ((-1 <? 0) && (0 <=? -1 + (zlen a + 1))) with true by lia. f_equal. lia. }
+  rewrite Hn. rewrite Es, nth_error_mid. cbn [r_start r_stop].
+  eexists. split; [reflexivity|]. unfold notify_splice, with_items. cbn [items].
+  rewrite splice_one. now rewrite app_nil_r.
+Qed.
+
+Lemma raw_pop_all_spec : forall l s acc,
+  items s = l ->
+  exists s', raw_pop_all (length l) s acc = (s', Ok (acc ++ rev l)) /\ items s' = [].
+Proof.
+  induction l as [|y a IH] using rev_ind; intros s acc Es.
+  - exists s. cbn. now rewrite app_nil_r.
+  - rewrite app_length, Nat.add_comm. cbn [length Nat.add raw_pop_all].
+    destruct (raw_pop_last s a y Es) as (s1 & Hp & Hi). rewrite Hp.
+    destruct (IH s1 (acc ++ [y]) Hi) as (s' & Hr & Hi'). exists s'. split; [|exact Hi'].
+    rewrite Hr, rev_app_distr. cbn [rev app]. now rewrite <- app_assoc.
+Qed.
+
+Lemma raw_reverse_spec s :
+  exists s', raw_reverse s = (s', OkNone) /\ items s' = rev (items s).
+Proof.
+  unfold raw_reverse. destruct (raw_pop_all_spec (items s) s [] eq_refl) as (s1 & Hr & Hi).
+  rewrite Hr. eexists. split; [reflexivity|].
+  unfold raw_extend, notify_splice, with_items. cbn [fst items]. now rewrite Hi.
+Qed.
